@@ -9,6 +9,8 @@ git -C /repo worktree add -q $W HEAD
 trap 'cd /; git -C /repo worktree remove --force '$W' >/dev/null 2>&1' EXIT
 (cd /repo && go build -o $W/goag.bin ./cmd/goag)
 cd $W
-for d in tests/*/; do (cd $d && $W/goag.bin --file openapi.yaml --out . --package test --client=true --donotedit=false >/dev/null 2>&1 || echo "GENFAIL $d"); done
+FAILED=0
+for d in tests/*/; do (cd $d && $W/goag.bin --file openapi.yaml --out . --package test --client=true --donotedit=false >/dev/null 2>&1) || { echo "GENFAIL $d"; FAILED=1; }; done
 git status --short | grep -c "^ M" || true
 go test -vet=off -count=1 ./... 2>&1 | grep -v "^ok\|no test files" || echo "all fixture tests pass on regenerated code"
+if [ $FAILED = 1 ]; then echo "SOME FIXTURE SPECS NO LONGER GENERATE"; exit 1; fi
